@@ -21,7 +21,7 @@ var Metas = map[string]*Meta{
 	"C06": {
 		Level: "exploration",
 		Rule: "A run draws a format, a size class (tiny<=14 B, small, medium 4-10 KiB, large 70-200 KiB), an input kind (generated well-formed text, mutated, raw noise over the format's delimiters) and compares, against the one-shot in-memory decode: " +
-			"(line lengths next to multiples of the 4096-byte bufio buffer and to 64 KiB are generated on purpose, in the thorough tier rarely a line of 1-1.5 MiB; mutations include byte order marks, NUL and bytes >= 0x80; 4% of inputs start with magic bytes of other formats; 12% of files get a name with a conventional or awkward meaning such as a single dash) every partition of inputs <= 14 bytes x both EOF placements, every single cut (<= 400 B), every pair of cuts (<= 60 B), 5-8 sampled delivery plans (1-byte, uniform, geometric, delimiter-hunting, buffer-boundary, whole; stalls; EOF with data); the CRLF rendering of well-formed text under three plans; File on plain/.gz/multi-member .gz copies and on a named pipe (size 0, fed by a writer); unopenable paths, including an existing file while the process has no descriptor left; two decodes of different inputs advanced in lock-step. " +
+			"(line lengths next to multiples of the 4096-byte bufio buffer and to 64 KiB are generated on purpose, in the thorough tier rarely a line of 1-1.5 MiB; mutations include byte order marks, NUL and bytes >= 0x80; 4% of inputs start with magic bytes of other formats; 12% of files get a name with a conventional or awkward meaning such as a single dash) every partition of inputs <= 14 bytes x both EOF placements, every single cut (<= 400 B), every pair of cuts (<= 60 B), 5-8 sampled delivery plans (1-byte, uniform, geometric, delimiter-hunting, buffer-boundary, whole; stalls; EOF with data); the CRLF rendering of well-formed text under three plans; File (every iterator value ranged twice) on plain/.gz/multi-member .gz copies, reached also through ./, absolute, sub/../ and symlink spellings, rarely on 11-14 MiB files, and on a named pipe (size 0, fed by a writer); unopenable paths, including an existing file while the process has no descriptor left; two decodes of different inputs advanced in lock-step. " +
 			"distinct_nontrivial counts distinct (format, input, delivery sequence actually executed | storage configuration) triples for sampled plans and single cuts (exhaustively enumerated partitions and pairs are counted separately under probes.exhaustive/*; a case is non-trivial iff the reference decode did not panic).",
 		Assumptions: []string{
 			"the one-shot decode through bytes.Reader is the reference; the check is differential and never asserts what the right decode is (C01-C05, C11 are not decided here)",
@@ -37,7 +37,7 @@ var Metas = map[string]*Meta{
 	},
 	"C15": {
 		Level: "exploration",
-		Rule: "A run executes four seeded histories (depth <= 12 quick, <= 60 thorough) of Add / Delete / restart (MarshalJSON -> fresh trie -> UnmarshalJSON, history continues on the rebuilt object) with caller-buffer scribbling after calls, arguments passed in one reused long-lived buffer, the JSON form also taken by calling MarshalJSON directly and holding the result across later calls, the JSON form as MarshalIndent re-indents it or as a field of an enclosing document, an operation that gives one node all 256 children, a churn of up to 65537 short-lived members, ForEach nested inside the callback of another ForEach, and a simulator-chosen child order for ForEach, over a swarm of alphabets (2-6 letters incl. 0x00, 0xFF, '\"') and length bounds; after EVERY step the full observation (Has for every string of the bounded universe, the ForEach multiset, Delete's result) is compared with a reference set model. The first runs are the fixed exhaustive sweep: all 14^4 = 38416 histories of depth 4 over 14 operations on {a,b} (thorough: depth 5, 537824 histories, plus all 26^4 = 456976 histories of depth 4 over {a,b,c}). " +
+		Rule: "A run executes four seeded histories (depth <= 12 quick, <= 60 thorough) of Add / Delete / restart (MarshalJSON -> fresh trie -> UnmarshalJSON, history continues on the rebuilt object) with caller-buffer scribbling after calls, arguments passed in one reused long-lived buffer, the JSON form also taken by calling MarshalJSON directly and holding the result across later calls, the JSON form as MarshalIndent re-indents it or as a field of an enclosing document, an operation that gives one node all 256 children, a churn of up to 65537 short-lived members, ForEach nested inside the callback of another ForEach, callbacks that panic and are recovered, steps that are left unobserved, and a simulator-chosen child order for ForEach, over a swarm of alphabets (2-6 letters incl. 0x00, 0xFF, '\"') and length bounds; after EVERY step the full observation (Has for every string of the bounded universe, the ForEach multiset, Delete's result) is compared with a reference set model. The first runs are the fixed exhaustive sweep: all 14^4 = 38416 histories of depth 4 over 14 operations on {a,b} (thorough: depth 5, 537824 histories, plus all 26^4 = 456976 histories of depth 4 over {a,b,c}). " +
 			"distinct_nontrivial counts distinct abstract states (sets M) reached; evaluations counts histories executed.",
 		Assumptions: []string{
 			"the reference model is a direct transcription of the property's definition of M (about 40 lines, no code shared with the implementation)",
@@ -51,7 +51,7 @@ var Metas = map[string]*Meta{
 	},
 	"C16": {
 		Level: "exploration",
-		Rule: "A run builds one index from generated (starts, ends) -- 0-12 intervals incl. start==end, start>end, duplicates, touching, nested, negative and math.MinInt/MaxInt coordinates -- shared by 1-4 simulated callers with up to 8 operations each (At at breakpoints, breakpoint+-1, below min, above max, random; scribbling over a previously returned slice in three modes; re-queries), once interleaved at whole-operation granularity on the real package and twice at statement granularity on the instrumented scratch copy (real goroutines, exactly one runnable, yield before every statement; uniform / sticky / PCT-style choice from the run PRNG); every At answer is compared with a brute-force scan; for 3% of runs a small case (2-3 callers, <= 4 operations each) additionally gets EVERY schedule with exactly one pre-emption (caller a runs k points, caller b runs to completion, then the rest: all a, k, b); 6% of cases pile 17-130 intervals on the same few positions (thresholds such as 16/32/64 members). In the instrumented copy package sort is replaced by a version that yields after every element move, because a sort of shared data is not atomic in reality. In 30% of cases a second, unrelated index is built before the queries; 0.15% of operation-granular cases use 16384-21000 intervals under a GOMAXPROCS of their own. In 30% of cases the argument slices have spare capacity behind them (reusable buffers, truncated slices). 3% of cases hand NewIndex unequal lengths and expect the panic. " +
+		Rule: "A run builds one index from generated (starts, ends) -- 0-12 intervals incl. start==end, start>end, duplicates, touching, nested, negative and math.MinInt/MaxInt coordinates -- shared by 1-4 simulated callers with up to 8 operations each (At at breakpoints, breakpoint+-1, below min, above max, random; scribbling over a previously returned slice in three modes; re-queries), once interleaved at whole-operation granularity on the real package and twice at statement granularity on the instrumented scratch copy (real goroutines, exactly one runnable, yield before every statement; uniform / sticky / PCT-style choice from the run PRNG); every At answer is compared with a brute-force scan; for 3% of runs a small case (2-3 callers, <= 4 operations each) additionally gets EVERY schedule with exactly one pre-emption (caller a runs k points, caller b runs to completion, then the rest: all a, k, b); 6% of cases pile 17-130 intervals on the same few positions (thresholds such as 16/32/64 members). In the instrumented copy package sort is replaced by a version that yields after every element move, because a sort of shared data is not atomic in reality. In 30% of cases a second, unrelated index is built before the queries; 0.2% of operation-granular cases use 4096-21000 intervals (half with ascending starts and long containing intervals) under a GOMAXPROCS of their own, swept at 400 positions; unrelated library calls (incl. BED12 parsing) run right before 10% of the cases. In 30% of cases the argument slices have spare capacity behind them (reusable buffers, truncated slices). 3% of cases hand NewIndex unequal lengths and expect the panic. " +
 			"The first 17 runs are the fixed exhaustive sweep: all 69 905 sets of <= 4 intervals over coordinates 0..3 (thorough: also all 1 048 576 sets of 5), positions -1..4, queried, scribbled, queried again. distinct_nontrivial counts distinct (index, callers' programs, executed schedule) triples; evaluations counts cases executed.",
 		Assumptions: []string{
 			"the brute-force scan {x | starts[x] <= i < ends[x]} ascending is the model; nil and empty results are equal",
@@ -69,7 +69,7 @@ var Metas = map[string]*Meta{
 	},
 	"C18": {
 		Level: "fault_enumeration",
-		Rule: "A run draws one case: an iterator (Reader of a format under a delivery plan, in 60% with an injected read fault; File on plain / .gz / torn .gz / directory / missing path; PreOrder/PostOrder of a generated tree; trie ForEach with simulator-chosen child order; CanonicalSubsequences) and its environment, records the uninterrupted run x_0..x_{N-1}, then stops at EVERY position j in [0,N) in each of three consumer styles (direct call with a counting yield, for-range + break, iter.Pull + stop). Iterators that can be walked again (File, traversals, ForEach, CanonicalSubsequences) use ONE iterator value for all runs of the case and are run to the end again after every stop (a stop must leave nothing behind); after the stops two walks are kept alive at the same time (iter.Pull, for CanonicalSubsequences over different sequences), and 4% of File cases do 300 stopped walks in a row under a descriptor budget (RLIMIT_NOFILE=200, collector off) before a last full walk. 35% of the injected read faults are transient (one error, then the rest of the data arrives); error values come from the same palette as in C07; 3% of reader inputs start with gzip magic or a byte order mark; 0.04% of runs are long iterations (66 000-140 000 items) whose sampled stop positions include the neighbours of every power of two. " +
+		Rule: "A run draws one case: an iterator (Reader of a format under a delivery plan, in 60% with an injected read fault; File on plain / .gz / torn .gz / directory / missing path; PreOrder/PostOrder of a generated tree; trie ForEach with simulator-chosen child order; CanonicalSubsequences) and its environment, records the uninterrupted run x_0..x_{N-1}, then stops at EVERY position j in [0,N) in each of three consumer styles (direct call with a counting yield, for-range + break, iter.Pull + stop). Iterators that can be walked again (File, traversals, ForEach, CanonicalSubsequences) use ONE iterator value for all runs of the case and are run to the end again after every stop (a stop must leave nothing behind); after the stops two walks are kept alive at the same time (iter.Pull, for CanonicalSubsequences over different sequences), and 4% of File cases do 300 stopped walks in a row under a descriptor budget (RLIMIT_NOFILE=200, collector off) before a last full walk. 35% of the injected read faults are transient (one error, then the rest of the data arrives); error values come from the same palette as in C07; 3% of reader inputs start with gzip magic or a byte order mark; 0.04% of runs are long iterations (66 000-140 000 items) (also runs of malformed SAM lines) whose sampled stop positions include the neighbours of every power of two and of ten; 0.08% of File cases use a 9-11 MiB file. " +
 			"distinct_nontrivial counts distinct cases with N >= 1 (by content hash of the case); evaluations counts iterator executions (1 + 3N per case, 1 + 6N for re-walkable iterators).",
 		Assumptions: []string{
 			"the uninterrupted run in the same environment is the reference for 'leading items'",
